@@ -221,6 +221,8 @@ def x2(ctx, R, rule="X2"):
             tests = [p for p, _ in fct.pred]
             if not ch_nodes or not all(cfg.dominates(ch_nodes, t, exc=False) for t in tests):
                 continue
+            if any(e is c for c in changers) and not _reassign_reports_progress(ctx):
+                continue  # the call's own verdict is trusted, but an implementation can answer True without having moved anything
             if not cfg.guarded(node, lambda x, fct=fct: x is fct):
                 continue
             # the other arm never reaches the replay
@@ -234,6 +236,25 @@ def x2(ctx, R, rule="X2"):
             ctx.violation(rule, f, "replay-unconditional", "the lexer is rewound (%s) whether or not reassign_arguments() changed anything: "
                           "the same token is delivered again in the same state" % norm(st), node=st,
                           witness='`require ["imap4flags"]; if hasflag { keep; }` never returns')
+
+
+def _reassign_reports_progress(ctx):
+    """Every reassign_arguments implementation returns a truthy value only after it has moved a value between slots."""
+    prog = ctx.program
+    impls = [c.methods["reassign_arguments"] for c in prog.all_classes() if c.module.name == "commands" and "reassign_arguments" in c.methods]
+    for g in impls:
+        cfg = ctx.cfg(g)
+        moves = [x for x in cfg.stmt_nodes() if isinstance(x.ast, ast.Assign) and any(
+            isinstance(t, ast.Subscript) and isinstance(t.value, ast.Attribute) and t.value.attr == "arguments" for t in x.ast.targets)]
+        for r in walk_no_nested(g.node):
+            if not isinstance(r, ast.Return) or r.value is None:
+                continue
+            v = const_value(prog, g, r.value)
+            if v is not TOP and not v:
+                continue
+            if not moves or not all(cfg.dominates(moves, x, exc=False) for x in cfg.nodes_for(r)):
+                return False
+    return bool(impls)
 
 
 # ------------------------------------------------------------------------------- X3
@@ -499,7 +520,7 @@ def x5(ctx, R):
             ctx.violation("X5", f, "decode:%s" % norm(c), "%s can raise UnicodeDecodeError (token classes %s may contain any byte) and nothing "
                           "catches it" % (norm(c), sorted(classes) if classes else "unknown"), node=c,
                           witness='`keep "\\xff";` makes parse() raise UnicodeDecodeError')
-    ctx.need("X5", "decode sites", n, 6)
+    ctx.need("X5", "decode sites", n, 1)
 
 
 # ------------------------------------------------------------------------------- X6
